@@ -138,6 +138,7 @@ pub fn gen_program(rng: &mut Rng, big: bool) -> Program {
         webtransport: Some(rng.chance(1, 4)),
         extended_connect: Some(rng.chance(1, 3)),
         datagram: Some(rng.chance(1, 3)),
+        call_order: rng.below(251) as u8,
         max_wt_sessions: if rng.chance(1, 4) { Some(*rng.pick(&[0u64, 1, 63, 64, 16383, 16384, (1 << 30) - 1, 1 << 30, (1 << 32) - 1, 1 << 40])) } else { None },
     };
     let ccfg = CliCfg {
